@@ -88,7 +88,7 @@ Section TailRT.
   (** decoding the layout depends only on the bits consumed *)
   Theorem tail_ext2 : ext2 (dec (FStruct (hd ++ [sp]))).
   Proof.
-    intros d1 d2 off v off' B1 B2 Ho H Hfit Ha. cbn [decode_frag] in *. rewrite go_dec_app in *.
+    intros d1 d2 off v off' B1 B2 Ho H Hfit Ha. cbn [decode_frag] in H |- *. rewrite go_dec_app in H. rewrite go_dec_app.
     destruct (go_dec d1 hd off) as [[vs o1]|e|] eqn:E1; cbn [bind] in H; try discriminate.
     destruct (dec sp d1 o1) as [[x o2]|e|] eqn:E2; cbn [bind] in H; try discriminate. inversion H; subst v off'. clear H.
     pose proof (list_mono sigt ssr59 ssr65 cap59 cap65 hd Hp d1 off B1 Ho vs o1 E1) as M1.
@@ -117,8 +117,8 @@ Section BuildGen.
   Variable lay : frag.
   Variable QB : val -> Prop.
   Variable RB : val -> val -> Prop.
-  Hypothesis HaccB : forall d o v d' o', bytes_ok d = true -> 0 <= o -> enc lay (d, o) v = Ok (d', o') ->
-    o <= o' /\ bytes_ok d' = true /\ zlen d' = zlen d /\ agree d d' 0 o /\ (QB v -> exists v', dec lay d' o = Ok (v', o') /\ RB v v').
+  Hypothesis HaccB : forall d v d' o', bytes_ok d = true -> enc lay (d, 12) v = Ok (d', o') ->
+    12 <= o' /\ bytes_ok d' = true /\ zlen d' = zlen d /\ agree d d' 0 12 /\ (QB v -> exists v', dec lay d' 12 = Ok (v', o') /\ RB v v').
   Hypothesis Hext2B : ext2 (dec lay).
 
   (** a frame built from a message of this layout is accepted by MessageFrame::new, carries the number and
@@ -150,7 +150,7 @@ Section BuildGen.
     destruct (put_bits KU 16 window 0 n 12 n ltac:(lia) ltac:(lia) ltac:(lia) ltac:(lia) Hwb eq_refl) as [d0' [Pu' [L0 [B0 Bits0]]]].
     rewrite Pu in Pu'. inversion Pu'; subst d0' o0. clear Pu'.
     (* the body *)
-    destruct (HaccB d0 12 v d1 o1 B0 ltac:(lia) En) as [M1 [B1 [L1 [A1 Hdec]]]]. destruct (Hdec HQ) as [v' [D1 Sh1]].
+    destruct (HaccB d0 v d1 o1 B0 En) as [M1 [B1 [L1 [A1 Hdec]]]]. destruct (Hdec HQ) as [v' [D1 Sh1]].
     pose proof (encode_frag_grows sigt ssr59 ssr65 cap59 cap65 Hc59 Hc65 lay Hwf (d0, 12) v (d1, o1) En) as Hg. cbn [snd] in Hg.
     set (dl := (o1 - 1) / 8 + 1) in *.
     assert (Hdl : 2 <= dl <= 1023) by (unfold dl; lia).
@@ -266,7 +266,7 @@ Section TailBuild.
       destruct (Hd HQ2) as [b' [Dd [Sh Rr]]]. exists (VStruct (a' ++ [b'])). rewrite El. split; [exact Dd|].
       exists a2, b2, a', b'. repeat split; assumption. }
     assert (Hext2B : ext2 (dec lay)) by (rewrite El; eapply tail_ext2; eassumption).
-    destruct (build_decodes_gen sigt ssr59 ssr65 cap59 cap65 table Hc59 Hc65 Hfit Hnum lay QB RB HaccB Hext2B n _ fr d' Hlk Hbuild
+    destruct (build_decodes_gen sigt ssr59 ssr65 cap59 cap65 table Hc59 Hc65 Hfit Hnum lay QB RB (fun d v d1 o1 Hb E => HaccB d 12 v d1 o1 Hb ltac:(lia) E) Hext2B n _ fr d' Hlk Hbuild
                 ltac:(exists vs1, x; split; [reflexivity|exact HQ])) as [f [v' [Hn [Hnum' [Hfrom [[a [b [a' [b' [E1 [-> [Sh Rr]]]]]]] _]]]]]].
     inversion E1 as [E2]. apply app_inj_tail in E2. destruct E2 as [<- <-].
     exists f, a', b'. repeat split; assumption.
